@@ -23,12 +23,14 @@ theorem C14_all_sites_order_independent :
     mapRanges.all (fun r => r.cls == .collectThenSort || r.cls == .pointwiseMapWrite) = true := by
   decide +kernel
 
-/-- the sites are exactly the five the model accounts for -/
+/-- the sites are exactly the five the model accounts for: which function ranges over a Go map,
+    how often, and how each range uses its keys (the NAME of the map variable is not part of the
+    fact: renaming a local does not change it) -/
 theorem C14_sites :
-    mapRanges.map (fun r => (r.func, r.expr)) =
-      [("AllocateSellingCoin", "mInfo.AllocationMap"), ("RefundPayingCoin", "mInfo.RefundMap"),
-       ("CalculateBatchAllocation", "reservedAmtByBidder"),
-       ("CalculateBatchAllocation", "matchRes.MatchResultByBidder"), ("BidsByPrice", "bidsByPrice")] := by
+    mapRanges.map (fun r => (r.func, r.cls)) =
+      [("AllocateSellingCoin", .collectThenSort), ("RefundPayingCoin", .collectThenSort),
+       ("CalculateBatchAllocation", .pointwiseMapWrite),
+       ("CalculateBatchAllocation", .pointwiseMapWrite), ("BidsByPrice", .collectThenSort)] := by
   decide +kernel
 
 /-- (b1) collect-then-sort over bidder keys (AllocateSellingCoin, RefundPayingCoin): whatever
